@@ -357,8 +357,9 @@ Definition raw_datum_ok (v : pv) : bool :=
 
 Definition raw_from_prim (v : pv) : res pv := if raw_datum_ok v then Ok (PRaw v) else Err E_Deser.
 
+(* one complete data item and nothing after it (Cbor.dec with fuel that always suffices: see sz_bound) *)
 Definition decode_res (bs : bytes) : res cbor :=
-  match decode bs with Some c => Ok c | None => Err E_Decode end.
+  match dec (3 * length bs) bs with Some (c, []) => Ok c | _ => Err E_Decode end.
 
 Definition raw_from_cbor (bs : bytes) : res pv := do c <- decode_res bs; do v <- loads c; raw_from_prim v.
 Definition raw_from_dict (j : json) : res pv := do v <- r_undict j; Ok (PRaw v).
